@@ -630,6 +630,42 @@ func (x *run) unexpectedErrors(prop string) *Failure {
 	return nil
 }
 
+// unexpectedErrorsExceptFaulted: like unexpectedErrors, for runs with an injected constructor
+// fault - operations during which a constructor failed are exempt, all others are not.
+func (x *run) unexpectedErrorsExceptFaulted(prop string) *Failure {
+	var faulted []*kit.Inv
+	for _, inv := range x.W.AllInvs() {
+		if inv.Outcome > 1 {
+			faulted = append(faulted, inv)
+		}
+	}
+	for _, o := range x.R.Obs {
+		if o.Kind != "resolve" && o.Kind != "create" {
+			continue
+		}
+		hit := false
+		for _, inv := range faulted {
+			if inv.StartSeq >= o.StartSeq && inv.StartSeq <= o.EndSeq {
+				hit = true
+			}
+		}
+		if hit || o.Err == nil || kit.IsDisposed(o.Err) {
+			continue
+		}
+		if o.Kind == "create" {
+			return fail(prop, "create-ok", "after-fault/"+kit.Classify(o.Err), "CreateScope(s%d) failed although no constructor failed during it: %v", o.Scope, firstLine(o.Err))
+		}
+		registered := o.Ident.Group != ""
+		if _, ok := x.M.Owner(o.Ident); ok {
+			registered = true
+		}
+		if registered && !x.M.NilOutput(o.Ident) {
+			return fail(prop, "resolve-ok", "after-fault/"+kit.Classify(o.Err), "get(s%d,%s) failed although no constructor failed during it: %v", o.Scope, o.Ident, firstLine(o.Err))
+		}
+	}
+	return nil
+}
+
 func firstLine(err error) string {
 	if err == nil {
 		return "<nil>"
